@@ -45,6 +45,32 @@ def iterate(a):
     return items
 
 
+def iteration_sees_updates(ctx):
+    """Items are x[i] at the time they are yielded (NumPy yields views): a loop that writes row i+1 while visiting row i."""
+    for d in ["int64", "float32", "nint32", "bool"]:
+        for shape in [(3,), (3, 2), (4, 1)]:
+            npv = impl.token_array(shape, d)
+            x = ndx.asarray(npv.copy())
+            ref = npv.copy()
+            seen, seen_ref = [], []
+            try:
+                for i, row in enumerate(x):
+                    seen.append(np.ma.getdata(row.to_numpy()).tolist())
+                    if i + 1 < shape[0]:
+                        x[i + 1, ...] = row
+                for i in range(shape[0]):
+                    seen_ref.append(np.ma.getdata(ref[i]).tolist())
+                    if i + 1 < shape[0]:
+                        ref[i + 1, ...] = ref[i]
+            except Exception as e:
+                ctx.violation(f"iter/eager/{d}/update-while-iterating-raises", f"{d}{list(shape)}: {type(e).__name__}: {str(e)[:150]}", {"dtype": d, "shape": shape})
+                continue
+            ctx.case(("iter-update", d, shape), True)
+            if seen != seen_ref:
+                ctx.violation(f"iter/eager/{d}/items-are-a-stale-snapshot", f"iterating {d}{list(shape)} while writing the next row: items {seen}, NumPy {seen_ref}",
+                              {"dtype": d, "shape": shape, "observed": seen, "numpy": seen_ref})
+
+
 def run(ctx: common.Ctx):
     ctx.extra["rule"] = (
         "all 24 dtypes (rotating over shapes) x shapes of rank 0..3 with extents 0..4 (all rank<=2, sampled rank 3) x "
@@ -157,6 +183,10 @@ def run(ctx: common.Ctx):
                             ref = npv[i]
                             v = it.to_numpy()
                             ok = ok and tuple(v.shape) == tuple(np.shape(ref)) and np.array_equal(np.ma.getdata(v).astype(str), np.asarray(ref).astype(str))
+                            # an item is x[i]: same dtype (nullable stays nullable), same null flags
+                            ok = ok and impl.dtname(it.dtype) == d
+                            if impl.is_nullable(d):
+                                ok = ok and np.array_equal(np.ma.getmaskarray(v), np.ma.getmaskarray(npv)[i])
                     elif ok:
                         ok = all(tuple(it._static_shape) == tuple(shape[1:]) for it in items)
                     if not ok:
@@ -173,6 +203,7 @@ def run(ctx: common.Ctx):
     ctx.extra["rows"] = len(rows)
     ctx.extra["exhaustive"] = not quick
     null_element_protocols(ctx)
+    iteration_sees_updates(ctx)
 
 
 def null_element_protocols(ctx):
